@@ -96,8 +96,14 @@ impl Backend {
             return Ok(None);
         };
 
-        // Find the matching definition by file path
-        let Some(definition) = defs.iter().find(|d| d.file_path == file_path) else {
+        // Find the matching definition by file path and line (a file may define the same
+        // fixture name more than once), falling back to the file alone
+        let item_line = Self::lsp_line_to_internal(item.selection_range.start.line);
+        let Some(definition) = defs
+            .iter()
+            .find(|d| d.file_path == file_path && d.line == item_line)
+            .or_else(|| defs.iter().find(|d| d.file_path == file_path))
+        else {
             return Ok(None);
         };
 
@@ -174,8 +180,14 @@ impl Backend {
             return Ok(None);
         };
 
-        // Find the matching definition by file path
-        let Some(definition) = defs.iter().find(|d| d.file_path == file_path) else {
+        // Find the matching definition by file path and line (a file may define the same
+        // fixture name more than once), falling back to the file alone
+        let item_line = Self::lsp_line_to_internal(item.selection_range.start.line);
+        let Some(definition) = defs
+            .iter()
+            .find(|d| d.file_path == file_path && d.line == item_line)
+            .or_else(|| defs.iter().find(|d| d.file_path == file_path))
+        else {
             return Ok(None);
         };
 
